@@ -2,6 +2,6 @@ SPECIFICATION Spec
 CONSTANTS
   Narrow8 = FALSE
   AnyEchoSrc = FALSE
-INVARIANTS Report Drift DriftS01
+INVARIANTS Report Drift DriftS01 DriftS02
 POSTCONDITION TraceAccepted
 CHECK_DEADLOCK FALSE
